@@ -186,9 +186,11 @@ class HashTable:
             self._values.fill(value)
 
     def items(self):
+        self._fill_values()
         return zip(self._keys.ravel(), self._values.ravel())
 
     def to_dict(self):
+        self._fill_values()
         return dict(zip(self._keys.ravel(), self._values.ravel()))
 
 
